@@ -48,7 +48,7 @@ BASE_SPEC = [
 ]
 
 VARIANTS = ('base', 'passport_cascade', 'group_cascade', 'passport_optional', 'car_optional', 'car_nocascade',
-            'group_owner')
+            'group_owner', 'profile_pk')
 
 
 def spec_variant(name):
@@ -85,6 +85,19 @@ def spec_variant(name):
                 attrs.append(('owner', 'req', {'rel': 'Person', 'reverse': 'owns'}))
             if n == 'Person':
                 attrs.append(('owns', 'opt', {'rel': 'Group', 'reverse': 'owner'}))
+    elif name == 'profile_pk':
+        # an entity whose primary key is a reference (Profile.person = PrimaryKey(Person)) and that other rows refer
+        # to (Car.sponsor): saving a Car can require its Profile first, which requires its Person first
+        for (n, attrs, opts) in spec:
+            if n == 'Person':
+                attrs.append(('profile', 'opt', {'rel': 'Profile', 'reverse': 'person'}))
+            if n == 'Car':
+                attrs.append(('sponsor', 'opt', {'rel': 'Profile', 'reverse': 'sponsored'}))
+        spec.insert(len(spec) - 1, ('Profile', [
+            ('person', 'pk', {'rel': 'Person', 'reverse': 'profile'}),
+            ('bio', 'opt', {'type': 'str'}),
+            ('sponsored', 'set', {'rel': 'Car', 'reverse': 'sponsor'}),
+        ], {}))
     elif name != 'base':
         raise ValueError(name)
     return spec
@@ -106,6 +119,7 @@ POOLS = {
     ('Car', 'plate'): ['pl1', 'pl2', 'pl3', 'pl4'],
     ('Car', 'seats'): [None, 2, 4],
     ('Log', 'msg'): ['l1', 'l2', 'l3'],
+    ('Profile', 'bio'): ['', 'b1', 'b2'],
 }
 
 
